@@ -185,10 +185,72 @@ def build_wrapped(desc, rng):
     return MgrTwin(make_mgr(mk, w), lambda: [inner_probe(), wprobe()])
 
 
+class OspTwin:
+    """OpenSpielWrapper over a manager over the scripted simulation (Discrete spaces)."""
+
+    def __init__(self, w, sim):
+        self.w, self.sim = w, sim
+        self.agents = w._learning_agents
+        self.order = list(w._learning_agents)
+
+    def reset(self):
+        return self.w.reset()
+
+    def step(self, acts):
+        if self.w.is_turn_based:
+            return self.w.step([acts[self.w.current_player]])
+        return self.w.step([acts[a] for a in self.order])
+
+    def live_after_reset(self, ts):
+        return list(self.order)          # OpenSpiel keeps sending actions for every player
+
+    def live_after_step(self, ts):
+        from open_spiel.python.rl_environment import StepType
+        return list(self.order), ts.step_type == StepType.LAST
+
+    def probe(self):
+        return [bool(self.w._should_reset), getattr(self.w, "_current_player", None),
+                sorted(self.w.sim.done_agents), self.sim.t, list(self.sim.pend)]
+
+
+class GymTwin:
+    """GymWrapper over a manager over a single-learning-agent scripted simulation."""
+
+    def __init__(self, w, sim):
+        self.w, self.sim = w, sim
+        self.agents = {w.agent_id: w.agent}
+
+    def reset(self):
+        return self.w.reset()
+
+    def step(self, acts):
+        return self.w.step(acts[self.w.agent_id])
+
+    def live_after_reset(self, out):
+        return [self.w.agent_id]
+
+    def live_after_step(self, out):
+        return ([] if out[2] else [self.w.agent_id]), bool(out[2])
+
+    def probe(self):
+        return [sorted(self.w.sim.done_agents), self.sim.t, list(self.sim.pend)]
+
+
+def build_adapter(desc, rng):
+    from abmarl.external import OpenSpielWrapper, GymWrapper
+    ak, mk, script = desc
+    sim = stubsim.ScriptSim(script)
+    mgr = make_mgr(mk, sim)
+    if ak == 0:
+        return OspTwin(OpenSpielWrapper(mgr), sim)
+    return GymTwin(GymWrapper(mgr), sim)
+
+
 STACKS[0] = build_script
 STACKS[1] = build_corridor
 STACKS[2] = build_grid
 STACKS[3] = build_wrapped
+STACKS[4] = build_adapter
 
 
 def impl(inp):
@@ -252,7 +314,20 @@ def wrapped_desc(rng):
     return [mk, wk, base]
 
 
-EXTRA_DESC = {3: wrapped_desc}
+def adapter_desc(rng):
+    ak = rng.choice([0, 0, 1])
+    mk = rng.choice([0, 1])
+    if ak == 0:
+        sc = stubsim.random_script(rng, mk, nmax=4, tmax=6, all_learning=(rng.random() < 0.6))
+    else:
+        sc = stubsim.random_script(rng, mk, nmax=3, tmax=6)
+        learn = [0] * sc[1]
+        learn[rng.randrange(sc[1])] = 1        # exactly one learning agent
+        sc[2] = learn
+    return [ak, mk, sc]
+
+
+EXTRA_DESC = {3: wrapped_desc, 4: adapter_desc}
 
 
 def nontrivial(inp, out):
@@ -261,6 +336,9 @@ def nontrivial(inp, out):
 
 def classify(inp, out):
     kind = {0: "script", 1: "corridor", 2: "grid"}.get(inp[0], f"stack{inp[0]}")
+    if inp[0] == 4:
+        kind = "adapter-" + {0: "openspiel", 1: "gym"}[inp[1][0]]
+        return f"{kind}/{MGR.get(inp[1][1], 'x')}/prefix{min(len(inp[2]), 3)}"
     if inp[0] == 3:
         kind = "wrapped-" + {0: "super", 1: "comm", 2: "ravel", 3: "flatten", 4: "stacked"}[inp[1][1]]
     mk = MGR.get(inp[1][0], "x") if isinstance(inp[1][0], int) else "x"
